@@ -42,7 +42,8 @@ Proof. vm_compute. reflexivity. Qed.
    most 40 a hand-written decoder over the reflection encoder *)
 Theorem C03_gen_coverage :
   (500 <=? List.length claimed)%nat = true /\
-  (List.length tlb_opaque <=? 110)%nat = true /\ (List.length tlb_decode_only <=? 40)%nat = true.
+  (List.length tlb_opaque <=? 110)%nat = true /\ (List.length tlb_decode_only <=? 40)%nat = true /\
+  (List.length tlb_partial <=? 20)%nat = true.
 Proof. vm_compute. repeat split. Qed.
 
 Theorem C03_gen_core_types_claimed :
@@ -60,3 +61,4 @@ Proof. vm_compute. reflexivity. Qed.
 Eval vm_compute in ("opaque (hand-written codec, no model)", map fst tlb_opaque).
 Eval vm_compute in ("decode-side only / asymmetric (hand-written decoder, reflection encoder)", map fst tlb_decode_only).
 Eval vm_compute in ("context-dependent unions", ctx_dependent).
+Eval vm_compute in ("claimed, but with union constructors that have no model (empty union in the descriptor)", map fst tlb_partial).
